@@ -498,14 +498,22 @@ func questionMD(answerLine string, multi bool, n, matching, form int) string {
 			if match {
 				b.WriteString("- `out 2`\n")
 			} else {
-				fmt.Fprintf(&b, "- `out %d`\n", 3+i)
+				fmt.Fprintf(&b, "- `%s`\n", []string{"out 3", "Out 2", "out 2.", "out2", "out 22"}[(i+matching)%5])
 			}
 		} else {
-			// evy code blocks that are really run
+			// evy code blocks that are really run; the wrong ones are near misses
 			if match {
 				fmt.Fprintf(&b, "- ```evy\n  print \"out\" %d-%d\n  ```\n", 2+i, i)
 			} else {
-				fmt.Fprintf(&b, "- ```evy\n  print \"out\" %d\n  ```\n", 3+i)
+				near := []string{
+					"printf \"out 2\"",     // no final newline
+					"print \"out 2 \"",     // trailing blank
+					"print \"out 2\\n\"",   // one newline too many
+					"print \"Out 2\"",      // case
+					"print \"out\" 2 \"\"", // trailing separator
+					fmt.Sprintf("print \"out\" %d", 3+i),
+				}
+				fmt.Fprintf(&b, "- ```evy\n  %s\n  ```\n", near[(i+matching+form)%len(near)])
 			}
 		}
 	}
@@ -604,11 +612,11 @@ func (d *D) runQuestion(sc *core.Scenario, ctx *core.Ctx) *core.Violation {
 				Expected: "verification accepts a question exactly when the marked choices are precisely the choices whose output equals the question's output",
 				Observed: obs, Match: map[string]string{"oracle": "verify-iff", "case": sig}}
 		}
-		if sealedFM && marked == (1<<(marked%n)) {
-			// corrupt the sealed front matter value: Verify must fail with an error or give the verdict of the uncorrupted file
+		if sealedFM {
+			// corrupt the sealed front matter value: Verify must fail to unseal, or give the verdict of the uncorrupted file
 			cs := corruptions(sealedValue, false)
 			r := prng.Derive(sc.Seed, uint64(sc.Index), uint64(marked), 77)
-			for t := 0; t < 12; t++ {
+			for t := 0; t < 5; t++ {
 				c := cs[r.Intn(len(cs))]
 				damaged := apply(sealedValue, c)
 				if damaged == sealedValue || strings.ContainsAny(damaged, "\n ") {
@@ -620,20 +628,24 @@ func (d *D) runQuestion(sc *core.Scenario, ctx *core.Ctx) *core.Violation {
 					ctx.Inc("evaluations", 1)
 					ctx.Inc("verifications_of_corrupted_sealed_files", 1)
 				}
+				obs["damage"] = c.String()
 				if p2 != "" {
 					obs["panic"] = p2
-					obs["damage"] = c.String()
 					return &core.Violation{Oracle: "no-panic", Signature: "panic:verify-corrupted", Expected: "verification never crashes", Observed: obs, Match: map[string]string{"oracle": "panic"}}
 				}
-				if berr2 != nil || verr2 != nil {
-					continue // rejected: fine
+				if berr2 != nil {
+					continue // rejected while loading: fine
 				}
-				if !want {
-					obs["damage"] = c.String()
-					return &core.Violation{Oracle: "verify-corrupted", Signature: "corrupted-sealed-file-accepted",
-						Expected: "a corrupted sealed answer makes verification fail or gives the verdict of the uncorrupted file", Observed: obs, Match: map[string]string{"oracle": "verify-corrupted"}}
+				wrong := errors.Is(verr2, learn.ErrWrongAnswer)
+				if (verr2 == nil && !want) || (wrong && want) {
+					// the damaged value was opened to some OTHER answer and that answer was judged
+					obs["verify_error"] = fmt.Sprint(verr2)
+					sc.Sealed["marked"] = fmt.Sprint(marked)
+					return &core.Violation{Oracle: "verify-corrupted", Signature: "corrupted-sealed-file-judged-as-another-answer",
+						Expected: "a corrupted sealed answer makes verification fail to unseal, or gives the verdict of the uncorrupted file", Observed: obs, Match: map[string]string{"oracle": "verify-corrupted"}}
 				}
 			}
+			delete(obs, "damage")
 		}
 	}
 	return nil
